@@ -25,8 +25,13 @@ TraceLog == ndJsonDeserialize(IOEnv.TRACE)
 Order == IF "ORDER" \in DOMAIN IOEnv THEN IOEnv.ORDER ELSE "0"
 Keys == 0..4
 
-VARIABLES lst, flt, nn, nf, pending, frames, done, pins, l
-vars == <<lst, flt, nn, nf, pending, frames, done, pins, l>>
+VARIABLES lst, flt, nn, nf, pending, frames, done, pins, l,
+          kind,      \* node -> [k, left]: "plain", "ctr" (CounterRemover, triggers left), "cond" (ConditionalRemover)   (C16)
+          rem        \* ScopedRemover -> [alive, tgt, resp]: target dispatcher (1: keys 1,2; 2: keys 3,4), listeners it answers for  (C15)
+vars == <<lst, flt, nn, nf, pending, frames, done, pins, l, kind, rem>>
+Rs == 1..3
+NoRem == [alive |-> FALSE, tgt |-> 1, resp |-> {}]
+UR == UNCHANGED <<kind, rem>>
 
 InSeq(s, x) == \E i \in 1..Len(s) : s[i] = x
 Pos(s, x) == CHOOSE i \in 1..Len(s) : s[i] = x
@@ -34,6 +39,7 @@ Without(s, x) == SelectSeq(s, LAMBDA y : y # x)
 
 Init == /\ lst = [e \in Keys |-> <<>>] /\ flt = <<>> /\ nn = 0 /\ nf = 0 /\ pending = <<>>
         /\ frames = <<>> /\ done = {} /\ pins = 0 /\ l = 1
+        /\ kind = <<>> /\ rem = [r \in Rs |-> IF r = 1 THEN [alive |-> TRUE, tgt |-> 1, resp |-> {}] ELSE NoRem]
 
 Ev == TraceLog[l]
 Is(e) == l <= Len(TraceLog) /\ Ev.e = e /\ l' = l + 1
@@ -96,11 +102,16 @@ UsableL(e, h) == h = 0 \/ \A x \in Keys : x # e => ~InSeq(lst[x], h)
 AddL(e, newseq) == LET S == Settle(frames, done) IN
                    /\ InCtx(S.fr) /\ Ev.r = nn + 1 /\ lst' = [lst EXCEPT ![e] = newseq] /\ nn' = nn + 1
                    /\ frames' = S.fr /\ done' = S.dn /\ UNCHANGED <<flt, nf, pending, pins>> /\ LvOk(S.fr, pins) /\ PvOk(S.fr)
-EvAppendL == Is("al") /\ AddL(Ev.o, Append(lst[Ev.o], nn + 1))
-EvPrependL == Is("pl") /\ AddL(Ev.o, <<nn + 1>> \o lst[Ev.o])
+PlainKind == kind' = Append(kind, [k |-> "plain", left |-> 0]) /\ UNCHANGED rem
+EvAppendL == Is("al") /\ AddL(Ev.o, Append(lst[Ev.o], nn + 1)) /\ PlainKind
+EvPrependL == Is("pl") /\ AddL(Ev.o, <<nn + 1>> \o lst[Ev.o]) /\ PlainKind
+\* CounterRemover(trigger count Ev.a) / ConditionalRemover: appended like any listener, they detach themselves later
+EvAppendCtr == Is("ac") /\ AddL(Ev.o, Append(lst[Ev.o], nn + 1)) /\ kind' = Append(kind, [k |-> "ctr", left |-> IF Ev.a < 1 THEN 1 ELSE Ev.a]) /\ UNCHANGED rem
+EvAppendCond == Is("ak") /\ AddL(Ev.o, Append(lst[Ev.o], nn + 1)) /\ kind' = Append(kind, [k |-> "cond", left |-> 0]) /\ UNCHANGED rem
 EvInsertL == Is("il") /\ UsableL(Ev.o, Ev.a)
              /\ LET s == lst[Ev.o] IN AddL(Ev.o, IF InSeq(s, Ev.a) THEN LET p == Pos(s, Ev.a) IN SubSeq(s, 1, p - 1) \o <<nn + 1>> \o SubSeq(s, p, Len(s))
                                                  ELSE Append(s, nn + 1))
+             /\ PlainKind
 EvRemoveL == /\ Is("rl") /\ UsableL(Ev.o, Ev.a)
              /\ LET S == Settle(frames, done)  was == InSeq(lst[Ev.o], Ev.a) IN
                 /\ InCtx(S.fr) /\ Ev.r = (IF was THEN 1 ELSE 0)
@@ -150,13 +161,89 @@ EvFilterEnd == /\ Is("fe") /\ frames # <<>> /\ Top(frames).k = "D" /\ Top(frames
                                                             ELSE [@ EXCEPT !.cur = 0, !.v = @ + Ev.b, !.ph = "x"]]
                /\ UNCHANGED <<lst, flt, nn, nf, pending, done, pins>>
 \* a listener is entered: next live listener of the snapshot, with the dispatch's arguments
+Strip(ls, S) == [k \in Keys |-> SelectSeq(ls[k], LAMBDA y : y \notin S)]
+AttachedN(n) == \E k \in Keys : InSeq(lst[k], n)
+NAtt(S) == Cardinality({n \in S : AttachedN(n)})
 EvEnter == /\ Is("en") /\ LET S == Settle(frames, done) IN
-              /\ S.fr # <<>> /\ Top(S.fr).k = "D" /\ Top(S.fr).cur = 0 /\ Top(S.fr).ph = "l"
-              /\ LET d == Top(S.fr)  t == LiveL(d.e, d.todo) IN
-                 /\ t # <<>> /\ Head(t) = Ev.a /\ Ev.u = d.uid /\ Ev.b = d.v /\ (Ev.o = 0 \/ Ev.o = d.e)
-                 /\ frames' = [S.fr EXCEPT ![Len(S.fr)] = [d EXCEPT !.todo = Tail(t), !.cur = Ev.a]]
+              /\ S.fr # <<>> /\ Top(S.fr).k = "D"
+              /\ LET d == Top(S.fr) IN
+                 IF d.ph = "k"
+                 THEN \* the condition of a ConditionalRemover has returned: its wrapped listener runs now, with the same arguments
+                      /\ d.cur = Ev.a /\ Ev.u = d.uid /\ Ev.b = d.v
+                      /\ frames' = [S.fr EXCEPT ![Len(S.fr)].ph = "l"] /\ UNCHANGED <<lst, kind, pins>>
+                 ELSE /\ d.cur = 0 /\ d.ph = "l"
+                      /\ LET t == LiveL(d.e, d.todo) IN
+                         /\ t # <<>> /\ Head(t) = Ev.a /\ kind[Ev.a].k # "cond" /\ Ev.u = d.uid /\ Ev.b = d.v /\ (Ev.o = 0 \/ Ev.o = d.e)
+                         /\ frames' = [S.fr EXCEPT ![Len(S.fr)] = [d EXCEPT !.todo = Tail(t), !.cur = Ev.a]]
+                         \* a CounterRemover listener counts this trigger and, on its last one, is detached BEFORE it runs
+                         /\ IF kind[Ev.a].k = "ctr"
+                            THEN /\ kind' = [kind EXCEPT ![Ev.a].left = @ - 1]
+                                 /\ IF kind[Ev.a].left - 1 <= 0 THEN lst' = Strip(lst, {Ev.a}) /\ pins' = pins + 1 ELSE UNCHANGED <<lst, pins>>
+                            ELSE UNCHANGED <<lst, kind, pins>>
               /\ done' = S.dn
-           /\ UNCHANGED <<lst, flt, nn, nf, pending, pins>>
+           /\ UNCHANGED <<flt, nn, nf, pending, rem>>
+\* ConditionalRemover: the condition is evaluated once per trigger, with the trigger's arguments, before the wrapped listener
+EvCondBegin == /\ Is("kb") /\ LET S == Settle(frames, done) IN
+                  /\ S.fr # <<>> /\ Top(S.fr).k = "D" /\ Top(S.fr).cur = 0 /\ Top(S.fr).ph = "l"
+                  /\ LET d == Top(S.fr)  t == LiveL(d.e, d.todo) IN
+                     /\ t # <<>> /\ Head(t) = Ev.a /\ kind[Ev.a].k = "cond" /\ Ev.u = d.uid /\ Ev.b = d.v
+                     /\ frames' = [S.fr EXCEPT ![Len(S.fr)] = [d EXCEPT !.todo = Tail(t), !.cur = Ev.a, !.ph = "c"]]
+                  /\ done' = S.dn
+               /\ UNCHANGED <<lst, flt, nn, nf, pending, pins, kind, rem>>
+EvCondEnd == /\ Is("ke") /\ frames # <<>> /\ Top(frames).k = "D" /\ Top(frames).ph = "c" /\ Top(frames).cur = Ev.a /\ Ev.a # 0
+             /\ frames' = [frames EXCEPT ![Len(frames)].ph = "k"]
+             /\ IF Ev.r = 1 THEN lst' = Strip(lst, {Ev.a}) /\ pins' = pins + 1 ELSE UNCHANGED <<lst, pins>>
+             /\ UNCHANGED <<flt, nn, nf, pending, done, kind, rem>>
+
+\* ---- ScopedRemover (C15)
+TKeys(d) == {2 * d - 1, 2 * d}
+EvSAdd == /\ (Is("sa") \/ Is("sp")) /\ rem[Ev.o].alive /\ Ev.a \in TKeys(rem[Ev.o].tgt)
+          /\ AddL(Ev.a, IF Ev.e = "sa" THEN Append(lst[Ev.a], nn + 1) ELSE <<nn + 1>> \o lst[Ev.a])
+          /\ kind' = Append(kind, [k |-> "plain", left |-> 0]) /\ rem' = [rem EXCEPT ![Ev.o].resp = @ \cup {nn + 1}]
+Detach(S, nodes) == /\ lst' = Strip(lst, nodes) /\ pins' = IF S.fr # <<>> THEN pins + NAtt(nodes) ELSE pins
+\* removing through the remover: reports whether the listener was (mine and) attached, detaches it at once
+EvSRemove == /\ Is("sr") /\ rem[Ev.o].alive
+             /\ LET S == Settle(frames, done)  mine == Ev.a \in rem[Ev.o].resp IN
+                /\ InCtx(S.fr) /\ frames' = S.fr /\ done' = S.dn
+                /\ Ev.r = (IF mine /\ AttachedN(Ev.a) THEN 1 ELSE 0)
+                /\ IF mine THEN Detach(S, {Ev.a}) /\ rem' = [rem EXCEPT ![Ev.o].resp = @ \ {Ev.a}] ELSE UNCHANGED <<lst, pins, rem>>
+             /\ UNCHANGED <<flt, nn, nf, pending, kind>> /\ LvOk(frames', pins')
+EvSReset == /\ Is("sx") /\ rem[Ev.o].alive
+            /\ LET S == Settle(frames, done) IN
+               /\ InCtx(S.fr) /\ frames' = S.fr /\ done' = S.dn /\ Detach(S, rem[Ev.o].resp)
+            /\ rem' = [rem EXCEPT ![Ev.o].resp = {}]
+            /\ UNCHANGED <<flt, nn, nf, pending, kind>> /\ LvOk(frames', pins')
+EvSTarget == /\ Is("st") /\ rem[Ev.o].alive /\ Ev.a \in {1, 2}
+             /\ LET S == Settle(frames, done) IN
+                /\ InCtx(S.fr) /\ frames' = S.fr /\ done' = S.dn
+                /\ IF rem[Ev.o].tgt = Ev.a THEN UNCHANGED <<lst, pins, rem>>
+                   ELSE Detach(S, rem[Ev.o].resp) /\ rem' = [rem EXCEPT ![Ev.o].resp = {}, ![Ev.o].tgt = Ev.a]
+             /\ UNCHANGED <<flt, nn, nf, pending, kind>> /\ LvOk(frames', pins')
+EvSMoveConstruct == /\ Is("sc") /\ rem[Ev.o].alive /\ ~rem[Ev.a].alive
+                    /\ rem' = [rem EXCEPT ![Ev.a] = [alive |-> TRUE, tgt |-> rem[Ev.o].tgt, resp |-> rem[Ev.o].resp], ![Ev.o].resp = {}]
+                    /\ UNCHANGED <<lst, flt, nn, nf, pending, frames, done, pins, kind>>
+\* move assignment: the destination takes over the source's listeners; what it answered for before is detached now, or is handed to
+\* the source (swap style) - never left attached with nobody answering for it
+EvSMoveAssign == /\ Is("sm") /\ rem[Ev.o].alive /\ rem[Ev.a].alive
+                 /\ LET S == Settle(frames, done)  s == Ev.o  t == Ev.a IN
+                    /\ InCtx(S.fr) /\ frames' = S.fr /\ done' = S.dn
+                    /\ IF s = t THEN UNCHANGED <<lst, pins, rem>>
+                       ELSE \/ /\ Detach(S, rem[t].resp)
+                               /\ rem' = [rem EXCEPT ![t].resp = rem[s].resp, ![t].tgt = rem[s].tgt, ![s].resp = {}]
+                            \/ /\ rem[t].resp # {} /\ UNCHANGED <<lst, pins>>
+                               /\ rem' = [rem EXCEPT ![t].resp = rem[s].resp, ![t].tgt = rem[s].tgt, ![s].resp = rem[t].resp, ![s].tgt = rem[t].tgt]
+                 /\ UNCHANGED <<flt, nn, nf, pending, kind>> /\ LvOk(frames', pins')
+EvSSwap == /\ Is("ss") /\ rem[Ev.o].alive /\ rem[Ev.a].alive
+           /\ rem' = [rem EXCEPT ![Ev.a] = rem[Ev.o], ![Ev.o] = rem[Ev.a]]
+           /\ UNCHANGED <<lst, flt, nn, nf, pending, frames, done, pins, kind>>
+EvSDestroy == /\ Is("sd") /\ rem[Ev.o].alive
+              /\ LET S == Settle(frames, done) IN
+                 /\ InCtx(S.fr) /\ frames' = S.fr /\ done' = S.dn /\ Detach(S, rem[Ev.o].resp)
+              /\ rem' = [rem EXCEPT ![Ev.o] = NoRem]
+              /\ UNCHANGED <<flt, nn, nf, pending, kind>> /\ LvOk(frames', pins')
+EvSCreate == /\ Is("sn") /\ ~rem[Ev.o].alive /\ Ev.a \in {1, 2}
+             /\ rem' = [rem EXCEPT ![Ev.o] = [alive |-> TRUE, tgt |-> Ev.a, resp |-> {}]]
+             /\ UNCHANGED <<lst, flt, nn, nf, pending, frames, done, pins, kind>>
 EvRet == /\ Is("rt") /\ frames # <<>> /\ Top(frames).k = "D" /\ Top(frames).ph = "l" /\ Top(frames).cur = Ev.a /\ Ev.a # 0
          /\ frames' = [frames EXCEPT ![Len(frames)].cur = 0]
          /\ UNCHANGED <<lst, flt, nn, nf, pending, done, pins>>
@@ -228,11 +315,14 @@ EvEmptyQ == /\ Is("eq") /\ LET S == Settle(frames, done) IN
 EvReset == /\ Is("rs") /\ frames = <<>> /\ Ev.lv = 0 /\ Ev.pv = 0
            /\ lst' = [e \in Keys |-> <<>>] /\ flt' = <<>> /\ nn' = 0 /\ nf' = 0 /\ pending' = <<>>
            /\ frames' = <<>> /\ done' = {} /\ pins' = 0
+           /\ kind' = <<>> /\ rem' = [r \in Rs |-> IF r = 1 THEN [alive |-> TRUE, tgt |-> 1, resp |-> {}] ELSE NoRem]
 
-Next == \/ EvAppendL \/ EvPrependL \/ EvInsertL \/ EvRemoveL \/ EvHasAnyL \/ EvOwnsL \/ EvForEachL \/ EvVisitL
-        \/ EvAppendF \/ EvRemoveF
-        \/ EvDispatchBegin \/ EvDispatchEnd \/ EvFilterBegin \/ EvFilterEnd \/ EvEnter \/ EvRet
-        \/ EvEnqueue \/ EvProcessBegin \/ EvPredBegin \/ EvPredEnd \/ EvProcessEnd \/ EvPeek \/ EvTake \/ EvClear \/ EvEmptyQ
+Next == \/ EvAppendL \/ EvPrependL \/ EvInsertL \/ EvAppendCtr \/ EvAppendCond
+        \/ ((EvRemoveL \/ EvHasAnyL \/ EvOwnsL \/ EvForEachL \/ EvVisitL \/ EvAppendF \/ EvRemoveF
+             \/ EvDispatchBegin \/ EvDispatchEnd \/ EvFilterBegin \/ EvFilterEnd \/ EvRet
+             \/ EvEnqueue \/ EvProcessBegin \/ EvPredBegin \/ EvPredEnd \/ EvProcessEnd \/ EvPeek \/ EvTake \/ EvClear \/ EvEmptyQ) /\ UR)
+        \/ EvEnter \/ EvCondBegin \/ EvCondEnd
+        \/ EvSAdd \/ EvSRemove \/ EvSReset \/ EvSTarget \/ EvSMoveConstruct \/ EvSMoveAssign \/ EvSSwap \/ EvSDestroy \/ EvSCreate
         \/ EvReset
 
 Report == IF TLCGet("stats").diameter - 1 = Len(TraceLog) THEN TRUE
